@@ -169,6 +169,16 @@ fn facets(ev: &Value, ex: &Value) -> Vec<(String, Value, Value, bool)> {
         eq("clone_mirror", json!(rev), dst["rev"].clone());
         let marks: Vec<Value> = e_rows.iter().map(|r| json!([["CK", r[0]], ["CV", r[0]]])).collect();
         eq("clone_marks", json!(marks), dst["marks"].clone());
+        // lookups in the new cache (both key forms, peek and contains) against its own traversal
+        if let Some(dp) = ev["dprobe"].as_array() {
+            let listed: Vec<i64> = dst["ord"].as_array()
+                .map(|v| v.iter().map(|r| r[0].as_i64().unwrap_or(-1)).collect()).unwrap_or_default();
+            let want: Vec<Value> = dp.iter().map(|p| {
+                let f = listed.contains(&p[0].as_i64().unwrap_or(-1)) as i64;
+                json!([p[0], f, f, f, f])
+            }).collect();
+            eq("clone_probe", json!(want), json!(dp));
+        }
     }
 
     out.push(("hashes".to_string(), ex["hashmax"].clone(), ev["counts"]["hash"].clone(), true));
